@@ -47,6 +47,11 @@ func c04Rules(p *core.Prog, r *core.Run) {
 	r.Analysed(p.FuncName(m.handle), p.FuncName(m.process), p.FuncName(m.parseCH), p.FuncName(m.parseExt), p.FuncName(m.newConn), p.FuncName(m.read))
 	const IP, DE = "ech.ErrIllegalParameter", "ech.ErrDecodeError"
 
+	// the checks of 7.1.1 apply to the second hello only if retry mode is
+	// entered for it: the mode rules of C06 (counter set before the
+	// HelloRetryRequest goes out, read after the record came in, ...)
+	c06State(p, r, m, "C04.hrr")
+
 	// the outer hello in handle = result 0 of parseClientHello(record[5:])
 	isOuter := func(e *core.Expr) bool {
 		return e.Op == "ext" && e.Name == "#0" && e.Args[0].Op == "call" && e.Args[0].Fn == m.parseCH
